@@ -84,6 +84,81 @@ def invariant_shapes(run):
     return n
 
 
+def rate_decomposer(run, rng, n):
+    """RateModel.v against visitLocation: for generated invariant labels (conjunctions, disjunctions, quantifiers, rates on either side, plain atoms of
+    several classes) the extracted decomposer and the type checker must agree on acceptance, on the exact tree stored (1 && c1 && .. && cn, left-nested, each ci
+    the subtree of the label the model names), on the stop-watch and strict-invariant flags of the document and on the $Strict_invariant warning"""
+    import scopegen, rategen
+    drv, err = vlib.build_extract('rate', 'Extract_Rate.v', 'drv_rate') if os.path.exists(os.path.join(vlib.COQ, 'theories', 'RateProofs.vo')) else (None, 'RateProofs.vo missing')
+    if drv is None:
+        run.tie_broken('extraction of the rate-decomposer model', err)
+        return dict(cases=0)
+    labels = [rategen.gen(rng, rng.choice([1, 2, 2, 3, 3, 4]), odd=0.0 if k % 4 else 0.15) for k in range(n)]
+    out = subprocess.run([drv], input='\n'.join(rategen.prefix(e) for e in labels) + '\n', stdout=subprocess.PIPE, universal_newlines=True).stdout.split('\n')
+    T = ('<?xml version="1.0" encoding="utf-8"?><nta><declaration>' + rategen.DECLS + '</declaration><template><name>T</name><location id="id0"><label kind="invariant">%s</label></location>'
+         '<init ref="id0"/></template><system>system T;</system></nta>')
+    j = vlib.Job()
+    for k, e in enumerate(labels):
+        j.case('r%d' % k, fork=True).model('xml', T % docgen.XESC(rategen.text(e))).dump('errors').dump('doc').dump('flags').expr(rategen.text(e)).end()
+    rr = vlib.run_jobs(j)
+    st = dict(cases=0, accepted=0, rejected=0, with_rates=0, with_quantifier=0, with_disjunction=0, stored_conjuncts=0)
+    for k, e in enumerate(labels):
+        txt = rategen.text(e)
+        c = rr['r%d' % k]
+        m = dict(f.split('=', 1) for f in out[k].split('\t')) if out[k].startswith('acc=') else None
+        if m is None:
+            run.tie_broken('rate model: no answer from the extracted model', dict(label=txt, line=out[k][:200]))
+            continue
+        if c['status'] != 'ok' or len(c['cmds']) < 5:
+            run.fail('type checker crashed on the invariant %r (%s)' % (txt, c['status']), dict(invariant=txt, status=c['status']), shape='crash:invariant')
+            continue
+        st['cases'] += 1
+        errs = [l for l in c['cmds'][1][2] if l.startswith('error')]
+        warns = [l for l in c['cmds'][1][2] if l.startswith('warning')]
+        if (m['acc'] == '1') != (not errs):
+            # which side is right is the property's business only for labels the model accepts and the checker refuses or mangles: report as tie
+            run.tie_broken('rate model and type checker disagree on whether an invariant label is accepted', dict(label=txt, model_accepts=m['acc'], errors=errs[:2]))
+            continue
+        if errs:
+            st['rejected'] += 1
+            continue
+        st['accepted'] += 1
+        stored = next((re.match(r't0 loc nr=0 .*? inv=(.*) exprate=', l).group(1) for l in c['cmds'][2][2] if l.startswith('t0 loc nr=0 ')), None)
+        flags = next((l for l in c['cmds'][3][2] if l.startswith('flags ')), '')
+        label = next((l[5:] for l in c['cmds'][4][2] if l.startswith('tree ')), None)
+        if stored is None or label is None or not flags:
+            run.tie_broken('rate model: dump not found', dict(label=txt))
+            continue
+        try:
+            tab = rategen.table(e, scopegen.sexpr(label))
+        except ValueError as ex:
+            run.tie_broken('rate model: the parse tree of a generated label has another shape than the generator thinks', dict(label=txt, tree=label[:400], why=str(ex)))
+            continue
+        want = [rategen.parse_prefix(x.split(' ')) for x in m['inv'].split(',')] if m['inv'] else []
+        st['stored_conjuncts'] += len(want)
+        st['with_rates'] += 'R ' in out[k]
+        st['with_quantifier'] += 'Q' in rategen.prefix(e).split(' ')
+        st['with_disjunction'] += 'O' in rategen.prefix(e).split(' ')
+        node, got = scopegen.sexpr(stored), []
+        for _ in want:
+            kids = [x for x in node[1:] if isinstance(x, list)] if isinstance(node, list) else []
+            if not (isinstance(node, list) and node[0] == 'AND' and len(kids) == 2):
+                break
+            got.insert(0, kids[1])
+            node = kids[0]
+        exp = [tab.get(w) for w in want]
+        if node != ['CONSTANT', 'i:1'] or got != exp:
+            extra = [x for x in got if x not in exp]
+            run.fail('the invariant label %r is stored as %s where the model of the decomposer keeps the conjuncts %s' % (txt, stored[:300], m['inv']),
+                     dict(invariant=txt, stored=stored, label=label, model=out[k]), shape='invariant-conjuncts:' + re.sub(r'[^a-z]+', '-', txt)[:30])
+            continue
+        fl = dict(f.split('=') for f in flags.split(' ')[1:])
+        if fl.get('stopwatch') != m['clock'] or fl.get('strictinv') != m['strict'] or (m['strict'] == '1') != any('Strict_invariant' in w for w in warns):
+            run.fail('the label %r: document flags %s / warnings %s, the model of the decomposer says clock rates=%s strict bound=%s' % (txt, flags, [w[:60] for w in warns][:2], m['clock'], m['strict']),
+                     dict(invariant=txt, flags=flags, warnings=warns[:3], model=out[k]), shape='invariant-flags:' + re.sub(r'[^a-z]+', '-', txt)[:30])
+    return st
+
+
 def check(run):
     thorough = run.tier == 'thorough'
     rng = run.rng
@@ -145,12 +220,15 @@ def check(run):
     if mmism:
         run.tie_broken('DocModel (extracted reader+builder) vs the generator\'s own model', mmism[:3] + [dict(total=len(mmism))])
     ninv = invariant_shapes(run)
-    run.cov.update(invariant_shapes=ninv, evaluations=len(models) + ninv, distinct_nontrivial=len(set(xmls)), traces_validated_against_impl=len(models),
+    rst = rate_decomposer(run, rng, 3000 if thorough else 500)
+    run.cov.update(invariant_shapes=ninv, rate_decomposer=rst, evaluations=len(models) + ninv, distinct_nontrivial=len(set(xmls)), traces_validated_against_impl=len(models),
                    rule='seeded random well-formed models: 0-4 templates (up to 8 in the thorough tier), value / reference parameters, local declarations, named and anonymous locations with invariant / exponential rate / urgent / committed, '
                         'branchpoints, self loops, parallel edges, edges through branchpoints, every subset and order of select / guard / synchronisation / assignment / probability labels (each with a unique marker), full instantiations, '
                         'system line with and without priorities; the real document dump must equal the generated model, and the extracted Coq reader+builder must produce the same document',
                    samples=samples, **stats)
     run.cov['trusted_base'] += ['hand model DocModel.v of XMLReader::templ/location/transition/label and DocumentBuilder::proc_* (tied through the common expected document)',
-                                'tools/docgen.py generator / renderer / dump parser', 'drv_doc.ml']
+                                'tools/docgen.py generator / renderer / dump parser', 'drv_doc.ml',
+                                'hand model RateModel.v of RateDecomposer::decompose over the class clauses of Typing.v (tied by tools/rategen.py labels: acceptance, exact stored tree, document flags); drv_rate.ml']
     return run.finish('proof', assumptions=['the libxml2 event level (begin/end/read skipping) and the text of declarations are outside the Coq model; label contents are identified by unique markers',
-                                            'partial instantiations and LSC templates are not generated'])
+                                            'LSC templates are not generated',
+                                            'cost variables cannot be declared in this build (ENABLE_CORA is off): the cost-equation branch of the decomposer is modelled and proved about, but no input reaches it'])
